@@ -95,3 +95,18 @@ func VerifC16Long() {
 	}
 	verifCover("C16.long.end")
 }
+
+// Opus payloads across the whole 0..10000 range the property names (the frame
+// size limits of RFC 6716 are not the depacketizer's business): every TOC byte
+func VerifC16OpusLong() {
+	n := verifPick("len", []int{1275, 1276, 1277, 2552, 2553, 2554, 10000})
+	in := verifLongFrame(n, false)
+	in[1] = verifU8("second")
+	var pkt OpusPacket
+	out, err := pkt.Unmarshal(in)
+	verifAssert("C16.opuslong.accept", err == nil)
+	verifAssert("C16.opuslong.unchanged", verifEqBytes(out, in) && verifEqBytes(pkt.Payload, in))
+	frags := (&OpusPayloader{}).Payload(verifU16("mtu"), in)
+	verifAssert("C16.opuslong.one", len(frags) == 1 && verifEqBytes(frags[0], in) && verifDisjoint(frags[0], in))
+	verifCover("C16.opuslong.end")
+}
